@@ -146,7 +146,7 @@ var defaultSizes = map[string]int{"A": 1500, "B": 70001, "C": 0, "D": 4096, "-":
 func newGwWorld(c *core.Ctx, prop string, env *Env, extra []*s3c.Client) *gwWorld {
 	w := &gwWorld{c: c, prop: prop, env: env, cls: append([]*s3c.Client{env.Root}, extra...), sizes: defaultSizes,
 		symVid: map[string]string{}, realVid: map[string]string{}, symUp: map[string]string{}, byEtag: map[string]string{},
-		versDir: env.Cfg.VersioningDir != "",
+		versDir:  env.Cfg.VersioningDir != "",
 		keyNames: map[string]string{"k1": "k1", "k2": "dir/k 2+%&=é.txt", "k3": "a/b/c/k3"}}
 	for id := range w.sizes {
 		if id != "-" {
@@ -156,7 +156,7 @@ func newGwWorld(c *core.Ctx, prop string, env *Env, extra []*s3c.Client) *gwWorl
 	return w
 }
 
-func (w *gwWorld) body(c string) []byte { return Content("gw-"+c, w.sizes[c]) }
+func (w *gwWorld) body(c string) []byte   { return Content("gw-"+c, w.sizes[c]) }
 func (w *gwWorld) bucket(b string) string { return w.prefix + b }
 func (w *gwWorld) key(k string) string {
 	if n, ok := w.keyNames[k]; ok {
